@@ -69,6 +69,19 @@ using SymEngine::vec_boolean;
 
 #include "symengine/parser/sbml/sbml_tokenizer.h"
 
+// Operands of the logical operators must be Booleans: the semantic values
+// are RCP<const Basic>, so check before the downcast
+static SymEngine::RCP<const SymEngine::Boolean>
+to_boolean(const SymEngine::RCP<const SymEngine::Basic> &b)
+{
+    if (!SymEngine::is_a_Boolean(*b)) {
+        throw SymEngine::ParseError(
+            "Operand of a logical operator is not of Boolean type: "
+            + b->__str__());
+    }
+    return SymEngine::rcp_static_cast<const SymEngine::Boolean>(b);
+}
+
 namespace sbml
 {
 
@@ -805,8 +818,8 @@ namespace sbml {
 #line 94 "sbml_parser.yy"
                    {
             set_boolean s;
-            s.insert(rcp_static_cast<const Boolean>(yystack_[2].value.as < SymEngine::RCP<const SymEngine::Basic> > ()));
-            s.insert(rcp_static_cast<const Boolean>(yystack_[0].value.as < SymEngine::RCP<const SymEngine::Basic> > ()));
+            s.insert(to_boolean(yystack_[2].value.as < SymEngine::RCP<const SymEngine::Basic> > ()));
+            s.insert(to_boolean(yystack_[0].value.as < SymEngine::RCP<const SymEngine::Basic> > ()));
             yylhs.value.as < SymEngine::RCP<const SymEngine::Basic> > () = logical_or(s); }
 #line 812 "sbml_parser.tab.cc"
     break;
@@ -815,8 +828,8 @@ namespace sbml {
 #line 99 "sbml_parser.yy"
                     {
             set_boolean s;
-            s.insert(rcp_static_cast<const Boolean>(yystack_[2].value.as < SymEngine::RCP<const SymEngine::Basic> > ()));
-            s.insert(rcp_static_cast<const Boolean>(yystack_[0].value.as < SymEngine::RCP<const SymEngine::Basic> > ()));
+            s.insert(to_boolean(yystack_[2].value.as < SymEngine::RCP<const SymEngine::Basic> > ()));
+            s.insert(to_boolean(yystack_[0].value.as < SymEngine::RCP<const SymEngine::Basic> > ()));
             yylhs.value.as < SymEngine::RCP<const SymEngine::Basic> > () = logical_and(s); }
 #line 822 "sbml_parser.tab.cc"
     break;
@@ -842,7 +855,7 @@ namespace sbml {
   case 20: // expr: '!' expr
 #line 107 "sbml_parser.yy"
                {
-            yylhs.value.as < SymEngine::RCP<const SymEngine::Basic> > () = logical_not(rcp_static_cast<const Boolean>(yystack_[0].value.as < SymEngine::RCP<const SymEngine::Basic> > ())); }
+            yylhs.value.as < SymEngine::RCP<const SymEngine::Basic> > () = logical_not(to_boolean(yystack_[0].value.as < SymEngine::RCP<const SymEngine::Basic> > ())); }
 #line 847 "sbml_parser.tab.cc"
     break;
 
